@@ -29,7 +29,12 @@ pub fn def() -> PropDef {
                above the type's maximum, AIGER literal above 2M+1, odd or zero defined literal, symbol index \
                beyond its section, fused tokens, invalid UTF-8 inside a symbol name, unknown or misspelt BTOR2 \
                keyword, zero node id), parsed one-shot and under a generated feed: the error's line must be the \
-               token's line and its column must lie on the corrupted token. Non-trivial: Part A - error beyond \
+               token's line and its column must lie on the corrupted token; one case in four is repeated behind a 1..23-byte \
+               preamble that the caller consumes before LineReader::new (line 1 starts at the current position). Part C \
+               (LineReader used directly): a hand-written word scanner over generated lines (words of 1..3000 bytes, so \
+               that small chunks realign inside a word) reports an error at a generated word via give_up(), \
+               set_mark()+give_up_at(mark()) or set_mark_to_position(saved)+give_up_at(mark()); line and column must be \
+               the word's. Non-trivial: Part A - error beyond \
                line 1 or column 1; Part B - every applicable corruption. Distinct by hash.",
         assumptions: &[
             "shards alternate between a build with overflow checks and a plain release build (an underflowing column computation is a panic in the former and a wrapped, out-of-bounds column in the latter)",
@@ -595,10 +600,183 @@ pub fn check_exact(c: &ExactCase, obs: &mut Obs) -> CheckResult {
             ),
         }
     }
+    // The same document behind a preamble that the caller consumes before wrapping the reader
+    // into a LineReader: "line 1 starts at the current position", so the place must not move.
+    if c.arg % 4 == 0 {
+        const PREAMBLE: &[u8] = b"\xEF\xBB\xBF#!magic 1.0\n\n%%\r\n";
+        let n = 1 + (c.pick as usize % PREAMBLE.len());
+        let mut bytes = PREAMBLE[..n].to_vec();
+        bytes.extend_from_slice(&k.bytes);
+        let (t, _) = drivers::run_behind_preamble(&c.spec, Rc::new(bytes), &c.feed, n, false);
+        obs.class("behind-consumed-preamble");
+        match &t.fin {
+            Final::Syntax { line, col, .. } if *line == k.line && *col >= k.col_lo && *col <= k.col_hi => {}
+            other => fail!(
+                format!("C08:{p}:{name}:behind-preamble"),
+                "{}: behind a {n}-byte preamble consumed before LineReader::new, corruption '{name}' at line {} columns {}..={} is reported as [{}]; input {:?}",
+                c.spec.describe(),
+                k.line,
+                k.col_lo,
+                k.col_hi,
+                other.short(),
+                show_bytes(&data)
+            ),
+        }
+    }
     Ok(())
 }
 
+// ---------------------------------------------------------------------------------------------
+// Part C: LineReader used directly by a hand-written scanner
+
+#[derive(Serialize, Deserialize, Clone, Debug, PartialEq, Eq, Hash)]
+pub struct ScanCase {
+    /// Words separated by single blanks or line feeds; `(length, newline_after)`.
+    pub words: Vec<(u16, bool)>,
+    pub target: u16,
+    /// 0: `give_up()` in front of the word; 1: `set_mark()` in front of it, consume it,
+    /// `give_up_at(mark())`; 2: remember `position()`, consume the word,
+    /// `set_mark_to_position(p)`, `give_up_at(mark())`.
+    pub mode: u8,
+    pub preamble: u8,
+    pub feed: Feed,
+}
+
+enum ScanErr {
+    Io(#[allow(dead_code)] std::io::Error),
+    Syntax(flussab::text::SyntaxError),
+}
+impl From<std::io::Error> for ScanErr {
+    fn from(e: std::io::Error) -> Self {
+        ScanErr::Io(e)
+    }
+}
+impl From<flussab::text::SyntaxError> for ScanErr {
+    fn from(e: flussab::text::SyntaxError) -> Self {
+        ScanErr::Syntax(e)
+    }
+}
+
+pub fn check_scan(c: &ScanCase, obs: &mut Obs) -> CheckResult {
+    if c.words.is_empty() {
+        return Ok(());
+    }
+    let target = (c.target as usize * c.words.len()) >> 16;
+    // the text and the target's true place
+    let mut data: Vec<u8> = (0..c.preamble).map(|i| if i % 5 == 4 { b'\n' } else { b'#' }).collect();
+    let (mut line, mut col) = (1usize, 1usize);
+    let mut want = (0, 0, 0);
+    for (i, (len, nl)) in c.words.iter().enumerate() {
+        let len = (*len as usize).max(1);
+        if i == target {
+            want = (line, col, len);
+        }
+        data.extend((0..len).map(|j| b'a' + ((i + j) % 26) as u8));
+        col += len;
+        if *nl {
+            data.push(b'\n');
+            line += 1;
+            col = 1;
+        } else {
+            data.push(b' ');
+            col += 1;
+        }
+    }
+    let (mut reader, _log) = crate::source::build_reader(Rc::new(data), &c.feed, None);
+    let mut left = c.preamble as usize;
+    while left > 0 {
+        let got = reader.request(left).len().min(left);
+        if got == 0 {
+            break;
+        }
+        reader.advance(got);
+        left -= got;
+    }
+    let mut lr = flussab::text::LineReader::new(reader);
+    let mut idx = 0usize;
+    let mut realigned_inside = false;
+    let err: Option<ScanErr> = loop {
+        match lr.reader.request_byte() {
+            None => break None,
+            Some(b'\n') => {
+                lr.line_at_offset(1);
+                lr.reader.advance(1);
+            }
+            Some(b' ') => lr.reader.advance(1),
+            Some(_) => {
+                let at_target = idx == target;
+                let start = lr.reader.position();
+                if at_target && c.mode % 3 == 0 {
+                    break Some(lr.give_up("here"));
+                }
+                if at_target && c.mode % 3 == 1 {
+                    lr.reader.set_mark();
+                }
+                while matches!(lr.reader.request_byte(), Some(b) if b != b' ' && b != b'\n') {
+                    lr.reader.advance(1);
+                }
+                if at_target {
+                    realigned_inside = lr.reader.position() - start > 2 * c.feed.chunk_size();
+                    if c.mode % 3 == 2 {
+                        lr.reader.set_mark_to_position(start);
+                    }
+                    let m = lr.reader.mark();
+                    break Some(lr.give_up_at(m, "there"));
+                }
+                idx += 1;
+            }
+        }
+    };
+    obs.nontrivial();
+    obs.class(format!("scanner-mode/{}", c.mode % 3));
+    obs.class_if(realigned_inside, "word-longer-than-two-chunks");
+    obs.class_if(c.preamble > 0, "behind-consumed-preamble");
+    obs.class_if(want.0 > 1, "error-beyond-line-1");
+    match err {
+        Some(ScanErr::Syntax(e)) if (e.location.line, e.location.column) == (want.0, want.1) => Ok(()),
+        Some(ScanErr::Syntax(e)) => fail!(
+            format!("C08:linereader:mode{}", c.mode % 3),
+            "hand-written scanner over LineReader (mode {}): word {} of length {} starts at {}:{}, the error is located at {}:{}; chunk {:?}, preamble {}",
+            c.mode % 3,
+            target,
+            want.2,
+            want.0,
+            want.1,
+            e.location.line,
+            e.location.column,
+            c.feed.chunk,
+            c.preamble
+        ),
+        _ => fail!(
+            format!("C08:linereader:mode{}:no-error", c.mode % 3),
+            "hand-written scanner over LineReader (mode {}): no syntax error was produced for word {}",
+            c.mode % 3,
+            target
+        ),
+    }
+}
+
 fn run(ctx: &Ctx) {
+    let n = ctx.share(ctx.tier.pick(300_000, 9_000_000));
+    let strat = (
+        proptest::collection::vec(
+            (prop_oneof![8 => 1u16..=12, 2 => 13u16..=200, 1 => 200u16..=3000], proptest::bool::weighted(0.3)),
+            1..24,
+        ),
+        any::<u16>(),
+        0u8..3,
+        prop_oneof![2 => Just(0u8), 1 => 1u8..=40],
+        feed_strategy(),
+    )
+        .prop_map(|(words, target, mode, preamble, feed)| ScanCase {
+            words,
+            target,
+            mode,
+            preamble,
+            feed,
+        });
+    ctx.run_cases("linereader-scanner", n, strat, check_scan);
+
     let n = ctx.share(ctx.tier.pick(1_200_000, 36_000_000));
     let strat = (input_strategy(8, true), feed_strategy()).prop_map(|(input, feed)| BoundsCase { input, feed });
     ctx.run_cases("bounds", n, strat, check_bounds);
@@ -666,6 +844,10 @@ fn replay(oracle: &str, v: &Value) -> Option<CheckResult> {
     match oracle {
         "bounds" => Some(match replay_from_file::<BoundsCase>(v) {
             Ok(c) => check_bounds(&c, &mut Obs::default()),
+            Err(e) => Err(Failure::new("C08:decode", e)),
+        }),
+        "linereader-scanner" => Some(match replay_from_file::<ScanCase>(v) {
+            Ok(c) => check_scan(&c, &mut Obs::default()),
             Err(e) => Err(Failure::new("C08:decode", e)),
         }),
         "exact" => Some(match replay_from_file::<ExactCase>(v) {
